@@ -3,8 +3,9 @@ from .. import common as C
 from .. import lbgen, lbshadow
 
 ID = "C02"
-MODULES = ["Helios.Props.C02"]
-THEOREMS = ["Helios.LB.dispatch_sound", "Helios.LB.dispatch_complete", "Helios.LB.no_503_while_healthy"]
+MODULES = ["Helios.Props.C02", "Helios.Props.Facts"]
+THEOREMS = ["Helios.LB.dispatch_sound", "Helios.LB.dispatch_complete", "Helios.LB.no_503_while_healthy",
+            "Helios.Facts.retry_budget_eq", "Helios.Facts.strategies_eq", "Helios.Facts.extraction_clean"]
 CLOCK_PKGS = ["internal/loadbalancer", "internal/ratelimiter", "internal/circuitbreaker", "internal/metrics"]
 
 
